@@ -20,15 +20,15 @@ B = z3.BoolSort()
 DECIDE_RLIMIT = 250_000
 
 
-class Unmodelled(Exception):
+class Unmodelled(BaseException):
     """A proxy was used in a way the engine does not model -> the obligation is UNDECIDED (never concretised)."""
 
 
-class Abort(Exception):
+class Abort(BaseException):
     """End of a path that is not an exit of the function (cut loop iteration finished, or infeasible)."""
 
 
-class Reject(Exception):
+class Reject(BaseException):
     """Concrete mode: the sampled input does not satisfy an assumption."""
 
 
